@@ -233,6 +233,9 @@ func checkCounter(r *core.Run, info *types.Info, fd *ast.FuncDecl) {
 				}
 				return true
 			})
+			if why := skipDependsOnWholeList(info, x, declared, virtual); why != "" && problem == "" {
+				problem = why
+			}
 			switch {
 			case ranged == virtual && stage == 0 && incs == 1:
 				stage = 1
@@ -265,6 +268,78 @@ func checkCounter(r *core.Run, info *types.Info, fd *ast.FuncDecl) {
 	} else {
 		o.Fail("%s", problem)
 	}
+}
+
+// skipDependsOnWholeList: inside a numbering loop, the increment may be
+// skipped (it sits under a condition, or a continue/break/return can run
+// before it) only on the strength of the element in hand and of what came
+// before it. A condition that mentions one of the property lists as a whole —
+// directly or as an argument of a call — makes the number of element i depend
+// on elements after i, which is exactly what an append changes.
+func skipDependsOnWholeList(info *types.Info, loop *ast.RangeStmt, lists ...string) string {
+	isList := map[string]bool{}
+	for _, l := range lists {
+		isList[l] = true
+	}
+	mentions := func(e ast.Expr) string {
+		out := ""
+		ast.Inspect(e, func(n ast.Node) bool {
+			if id, ok := n.(*ast.Ident); ok && isList[id.Name] {
+				if _, isVar := info.Uses[id].(*types.Var); isVar {
+					out = id.Name
+				}
+			}
+			return out == ""
+		})
+		return out
+	}
+	// position of the increment
+	var inc *ast.IncDecStmt
+	ast.Inspect(loop.Body, func(n ast.Node) bool {
+		if x, ok := n.(*ast.IncDecStmt); ok && inc == nil {
+			inc = x
+		}
+		return true
+	})
+	if inc == nil {
+		return ""
+	}
+	why := ""
+	// (1) conditions enclosing the increment
+	path := core.PathTo(loop.Body, inc)
+	for _, nd := range path {
+		if is, ok := nd.(*ast.IfStmt); ok {
+			if l := mentions(is.Cond); l != "" {
+				why = fmt.Sprintf("the increment of the field counter is conditional on %s, which reads the whole list %s", core.ExprStr(is.Cond), l)
+			}
+		}
+	}
+	// (2) jumps that can run before the increment
+	ast.Inspect(loop.Body, func(n ast.Node) bool {
+		is, ok := n.(*ast.IfStmt)
+		if !ok || is.Pos() > inc.Pos() {
+			return true
+		}
+		jumps := false
+		ast.Inspect(is.Body, func(m ast.Node) bool {
+			switch j := m.(type) {
+			case *ast.BranchStmt:
+				if j.Tok == token.CONTINUE || j.Tok == token.BREAK || j.Tok == token.GOTO {
+					jumps = true
+				}
+			case *ast.FuncLit:
+				return false
+			}
+			return true
+		})
+		if jumps {
+			if l := mentions(is.Cond); l != "" {
+				why = fmt.Sprintf("an element is skipped before the field counter is incremented when %s, which reads the whole list %s: the numbers of the fields that follow then depend on declarations after them, and appending one renumbers existing fields", core.ExprStr(is.Cond), l)
+			}
+		}
+		return true
+	})
+	return why
 }
 
 // provEnumNumbers (R-PROV/V2).
